@@ -406,10 +406,11 @@ def r19_8(ctx):
         width = rl.group_max_width(pat.decode("latin-1") if isinstance(pat, bytes) else pat, 1)
     except Exception:  # noqa: BLE001
         width = None
+    # number = 1*DIGIT: a count is a literal announcement however many digits it has (leading zeros, a count beyond any
+    # limit - that one must be *refused* as a literal, not relayed as the end of a command whose octets then read as commands)
+    if width is not None and width < 65535:
+        ctx.bad("R19.8", "server", "<module>", f"RE_LITERAL_STRING_START = {pat!r}", f"the pattern recognises a literal announcement of at most {width} digits: `{{{'0' * width}4+}}` or an over-long count is taken for the end of the command line - no `+`, no refusal - and the literal's octets are then read and relayed as commands", 1)
     for s in sites:
-        if width is not None and width <= 4300:
-            ctx.ok("R19.8", where(fi), f"{norm(s)}: the pattern admits at most {width} digits")
-            continue
         cur, handler = s, None
         while cur in par:
             pr = par[cur]
